@@ -25,6 +25,9 @@ for name in sorted(os.listdir(S)):
     notes = open(os.path.join(d, "NOTES.md")).read() if os.path.exists(os.path.join(d, "NOTES.md")) else ""
     props = open(os.path.join(d, "props")).read().split() if os.path.exists(os.path.join(d, "props")) else []
     log = open(os.path.join(d, "eval.log")).read() if os.path.exists(os.path.join(d, "eval.log")) else ""
+    # confirm.log: transcript of the full confirmation run (demo without/with the patch, suite with the patch);
+    # eval.log: transcript of the latest evaluation of the checks (possibly FAST=1: patch applied, checks only)
+    clog = open(os.path.join(d, "confirm.log")).read() if os.path.exists(os.path.join(d, "confirm.log")) else log
     demo = [f for f in os.listdir(d) if f.endswith("_test.go")]
     files = sorted(set(re.findall(r"^diff --git a/(\S+)", open(os.path.join(d, "patch.diff")).read(), re.M)))
     meta = {"name": name, "patch": "patch.diff", "files_changed": files, "demonstration": demo,
@@ -32,8 +35,9 @@ for name in sorted(os.listdir(S)):
             "checks_run": props}
     if log:
         sec = re.split(r"^== ", log, flags=re.M)
+        csec = re.split(r"^== ", clog, flags=re.M)
         def part(prefix):
-            for s_ in sec:
+            for s_ in csec:
                 if s_.startswith(prefix):
                     return s_
             return ""
